@@ -130,6 +130,8 @@ def main():
     if a.replay:
         sys.exit(replay(pid, a.replay))
 
+    if a.budget is None and os.environ.get("VERIF_BUDGET"):
+        a.budget = float(os.environ["VERIF_BUDGET"])          # validation runs: VERIF_BUDGET=0 executes the mandatory cases only
     budget = a.budget if a.budget is not None else (QUICK_BUDGET if a.tier == "quick" else THOROUGH_BUDGET)
     if a.shard:
         k, n = map(int, a.shard.split("/"))
